@@ -22,6 +22,10 @@ LEVEL = "exploration"
 MOD = "mcverif.checks.c18"
 
 
+# invalid deviations that exercise the same refusal mechanism share a class key
+SAME_MECHANISM = {"duct-overlap": "duct-beyond-pitch"}
+
+
 def _case_id(case):
     return "%s+%s" % (case["base"], "+".join("%s:%s" % (d, a) for d, a in case["devs"]) or "base")
 
@@ -36,10 +40,11 @@ def _build(text, seed):
     return reactors.factory(build.settings(), bp), bp
 
 
-def _refusal_key(case):
-    """Class key of an accepted-but-inconsistent document: the invalid deviation's name."""
-    inv = [a for d, a in case["devs"] if d == "invalid"]
-    return "c18/accepts-inconsistent-" + (inv[0] if inv else "document")
+def _refusal_key(case, reasons):
+    """Class key of an accepted-but-inconsistent document: the invalid deviation's name, else
+    the evaluator's reason class."""
+    inv = [SAME_MECHANISM.get(a, a) for d, a in case["devs"] if d == "invalid"]
+    return "c18/accepts-inconsistent-" + (inv[0] if inv else reasons[0].split(":")[0].replace(" ", "-"))
 
 
 def eval_doc(case):
@@ -47,13 +52,21 @@ def eval_doc(case):
     from mcverif import observe
 
     vs = []
-    spec, declared = c18_doc.make_spec(case)
-    text = c18_doc.render(spec)
-    reasons = c18_model.validate(spec)
     cid = _case_id(case)
-    if bool(reasons) != bool(declared):
+    try:
+        spec, declared = c18_doc.make_spec(case)
+        text = c18_doc.render(spec)
+        reasons = c18_model.validate(spec)
+    except (KeyError, IndexError, ValueError) as e:
+        if len(case["devs"]) < 2:
+            raise
+        # the second deviation edits something the first one removed: not a document
+        return [], {"outcome": "inapplicable", "invalid": False, "why": repr(e)}
+    if bool(reasons) != bool(declared) and len(case["devs"]) < 2:
         raise RuntimeError("harness: evaluator finds %s for %s declared %s" % (reasons, cid, declared))
-    info = {"outcome": None, "invalid": bool(reasons)}
+    # (with two deviations the evaluator's judgement decides: one deviation may neutralise or
+    # cause an inconsistency of the other)
+    info = {"outcome": None, "invalid": bool(reasons), "declared": bool(declared)}
     try:
         r, bp = _build(text, 0)
         err = None
@@ -61,7 +74,7 @@ def eval_doc(case):
         r, err = None, e
     if reasons:
         if err is None:
-            vs.append(core.viol(_refusal_key(case), "document %s is inconsistent (%s) but is accepted: a reactor with %d assemblies is built" % (cid, "; ".join(reasons)[:300], len(r.core)), case))
+            vs.append(core.viol(_refusal_key(case, reasons), "document %s is inconsistent (%s) but is accepted: a reactor with %d assemblies is built" % (cid, "; ".join(reasons)[:300], len(r.core)), case))
             info["outcome"] = "accepted-invalid"
         else:
             info["outcome"] = "refused:" + type(err).__name__
@@ -76,7 +89,7 @@ def eval_doc(case):
         vs.append(core.viol("c18/built-differs-%s" % cls, "%s: %s" % (cid, msg), case))
     # determinism: the same text built again
     o1 = observe.obs(r, rank=True)
-    r2, _ = _build(text, 0)
+    r2, _ = _build(text, 7919)  # the state of ``random`` (provisional names) must not matter either
     o2 = observe.obs(r2, rank=True)
     d = observe.diff(o1, o2)
     if d:
@@ -151,9 +164,13 @@ def run(ctx):
             for k, v in st.items():
                 ctx.count("maps_%s_%s" % (info["cls"], k.replace("viol:c18/asciimap-", "viol-")), v)
         else:
+            ctx.count("docs_" + info["outcome"].split(":")[0])
+            if info["outcome"] == "inapplicable":
+                continue
             ndocs += 1
             nontrivial += bool(case["devs"])
-            ctx.count("docs_" + info["outcome"].split(":")[0])
+            if info.get("invalid") != info.get("declared"):
+                ctx.count("docs_validity_changed_by_combination")
             if info["outcome"].startswith("refused:"):
                 ctx.count("docs_refusal_" + info["outcome"].split(":")[1])
             for d, _ in case["devs"]:
@@ -175,5 +192,5 @@ def run(ctx):
     ctx.assumptions += [
         "documents: <= %d deviations from two base documents over the dimensions of c18_doc (finite alternatives per dimension); theta-R-Z grids, component groups, 3-D shapes, mergeWith, inputHeightsConsideredHot=False and custom density on library materials are not generated" % (1 if ctx.quick else 2),
         "trusted: material library (default mass fractions, reference densities, expansion correlations), nuclide directory (weights, abundances), units.AVOGADROS_NUMBER; default settings (xs kernel MC2v3 element expansion rules)",
-        "lattice maps: all non-empty subsets of the stated cell universes (hex: 2 rings, 3 rings restricted to |S|<=3 or >=17 in quick / all in thorough; third-core 4/5 rings; Cartesian 3x3/4x4 patches incl. negative indices), distinct labels of 1/3 (and mixed) characters",
+        "lattice maps: all non-empty subsets of the stated cell universes (hex: 2 rings, 3 rings restricted to |S|<=3 or >=17 in quick / all in thorough; third-core 3 rings + 3 out-of-domain cells, 4 rings, and in thorough 5 rings with |S|<=4 or >=18; Cartesian 3x3/4x4 patches incl. negative indices), distinct labels of 1/3 (and mixed) characters",
     ]
